@@ -53,7 +53,7 @@ theorem core_ops_complete :
 /-! ### Non-vacuity -/
 
 /-- The tables are inhabited; the listings are empty on the current tree. -/
-example : bytFns.length = 135 ∧ modelOpKeys.length = 34 ∧ driveOps.length = 41 ∧
+example : bytFns.length = 135 ∧ modelOpKeys.length = 34 ∧ driveOps.length ≥ 41 ∧
     (bytApiCoverage.filter fun e => match e.2 with | .coreOp _ => true | _ => false).length ≥ 30 ∧
     uncoveredFns.length = 0 ∧ badEntries = [] := by decide +kernel
 
